@@ -102,10 +102,28 @@ def gen_case(c, g):
     ops = []
     n = len(desc["nodes"])
     light = [i for i in range(n) if desc["nodes"][i]["cls"] in LIGHT]
+    submitted = [a["n"] for a in desc["actions"] if a["a"] == "submit"]
+    if c.rng.random() < 0.3:
+        # directed: identify an (often unsealed) node, modify it, seal it, identify it again - the identifier
+        # answered after the seal must be the one of the modified content
+        i = c.rng.randrange(n)
+        slots = [(s, kd) for s, kd in SLOTS[desc["nodes"][i]["cls"]].items() if kd.rstrip("!") in ("int", "str", "oint", "ostr")
+                 and s not in READONLY]
+        if slots:
+            s_, kd = c.rng.choice(slots)
+            v = g.value(kd.rstrip("!").lstrip("o") + "!", [])
+            ops += [dict(op=c.rng.choice(["raw", "full"]), n=i), dict(op="assign", n=i, name=s_, v=v),
+                    dict(op="seal", n=i), dict(op="full", n=i)]
     for _ in range(c.rng.randint(3, 9)):
-        k = c.rng.choices(["assign", "meta", "pre", "full", "raw", "seal", "jobpath"], [6, 3, 2, 4, 2, 1, 1])[0]
+        k = c.rng.choices(["assign", "meta", "pre", "full", "raw", "seal", "jobpath", "resubmit"], [6, 3, 2, 4, 2, 1, 1, 1])[0]
         i = c.rng.randrange(n)
         cls = desc["nodes"][i]["cls"]
+        if k == "resubmit":
+            if submitted:
+                i = c.rng.choice(submitted)
+                ops.append(dict(op="resubmit", n=i, init=c.rng.sample(light, min(len(light), c.rng.choice([0, 1, 2])))))
+                ops.append(dict(op=c.rng.choice(["full", "jobpath"]), n=i))
+            continue
         if k == "assign":
             slots = [(s, kd) for s, kd in SLOTS[cls].items() if s not in READONLY and s != "ddd"]
             s, kd = c.rng.choice(slots)
@@ -143,6 +161,8 @@ def g_sop(o):
         return f"(SSetMeta {gnat(o['n'])} {gopt(o['flag'], gbool)})"
     if k == "pre":
         return f"(SAddPre {gnat(o['n'])} {glist(gnat(i) for i in o['ids'])})"
+    if k == "resubmit":      # refused on a submitted (sealed) task and changes nothing: as an empty add_pretasks attempt
+        return f"(SAddPre {gnat(o['n'])} [])"
     return {"seal": "SSeal", "raw": "SRaw", "full": "SFull"}[k] + " " + gnat(o["n"])
 
 
@@ -162,7 +182,8 @@ def g_kcase(k):
     ans = [a for o, a in zip(k["ops"], k["answers"]) if o["op"] != "jobpath"]
     return (f"{{| k_classes := {identgen.g_classes(b['classes'])}; k_heap := {identgen.g_heap(b['nodes'])}; "
             f"k_cache := {identgen.g_cache(b['nodes'])}; k_ops := {glist(g_sop(o) for o in ops)}; "
-            f"k_expect := {glist(g_sexpect(a) for a in ans)}; k_final := {identgen.g_heap(k['after']['nodes'])} |}}")
+            f"k_expect := {glist(g_sexpect(a) for a in ans)}; k_final := {identgen.g_heap(k['after']['nodes'])}; "
+            f"k_final_cache := {identgen.g_cache(k['after']['nodes'])} |}}")
 
 
 def oracle(c, case, r):
@@ -196,7 +217,7 @@ def oracle(c, case, r):
     for o, a in zip(r["ops"], r["answers"]):
         k = o["op"]
         c.count("op:" + k + ("" if k in ("full", "raw", "jobpath", "seal") else (":frozen" if o["n"] in frozen else ":free")))
-        if k in ("assign", "meta", "pre") and o["n"] in frozen and not a.startswith("rejected:"):
+        if k in ("assign", "meta", "pre", "resubmit") and o["n"] in frozen and not a.startswith("rejected:"):
             c.violation(f"C14:attempt-accepted:{k}", f"a {k} attempt on a frozen configuration was not rejected",
                         dict(desc=case["desc"], ops=case["ops"], op=o, answer=a))
     last = {o["n"]: a for o, a in zip(r["ops"][-n:], r["answers"][-n:])}
@@ -272,9 +293,17 @@ def run(c: Check):
     for i, diag in enumerate(diags):
         if diag:
             pairs = list(zip(diag[0::2], diag[1::2]))
-            c.violation("C14:state-invariant" + identgen.selfmark_suffix(coq_cases[i]["desc"], pairs),
+            c.violation("C14:state-invariant" + identgen.selfmark_suffix(coq_cases[i]["desc"], pairs, coq_cases[i]["before"]["nodes"]),
                         "the state the history starts from breaks the invariant of the cache theorems: " + identgen.diag_text(pairs),
                         dict(desc=coq_cases[i]["desc"], ops=[], diagnosis=pairs))
+    # ... and on the state the history ENDS in (identifiers cached during the history must be the fresh ones)
+    diags2 = c.nat_shards("invfinal", HEADER, coq_cases, g_kcase, "diag_kfinal", shard=40)
+    for i, diag in enumerate(diags2):
+        if diag:
+            pairs = list(zip(diag[0::2], diag[1::2]))
+            c.violation("C14:state-invariant-after-history" + identgen.selfmark_suffix(coq_cases[i]["desc"], pairs, coq_cases[i]["after"]["nodes"]),
+                        "the state the history ends in breaks the invariant of the cache theorems: " + identgen.diag_text(pairs),
+                        dict(desc=coq_cases[i]["desc"], ops=coq_cases[i]["ops"], diagnosis=pairs))
     c.level_assumptions = [
         "SHA-256 is a parameter of the theorems (Gallina SHA-256 validated against hashlib by the correspondence)",
         "frozen_identity is proved for acyclic graphs (identifiers = the fuel-free table specification); cyclic graphs are covered by correspondence + oracle",
